@@ -34,6 +34,9 @@ type Network struct {
 	gateN, gateSeen  int
 	gateQ            []*vsched.Thread
 	gateOwner        *vsched.Thread
+	// TestHookServe, if set, runs inside the window between net.Listen and the
+	// listener registration (the counterpart of net/http's testHookServerServe)
+	TestHookServe func(srv *Server)
 }
 
 type listener struct {
@@ -254,6 +257,9 @@ func (srv *Server) ListenAndServe() error {
 	n.Log = append(n.Log, "bind "+srv.Addr)
 	// window between net.Listen and Serve's trackListener (testHookServerServe sits here)
 	vsched.Sync("Serve:before-trackListener")
+	if n.TestHookServe != nil {
+		n.TestHookServe(srv)
+	}
 	if srv.inShutdown {
 		// trackListener refuses; the deferred l.Close() runs as a separate step
 		vsched.Sync("Serve:deferred-listener-close")
